@@ -338,7 +338,36 @@ def rise_set(repo, rep):
     if ok:
         rep.ok("R-RANGE-REFUSE", site, "latitude > 66d33' or < -66d33' -> ValueError")
     else:
-        rep.violation("R-RANGE-REFUSE", site, "latitude-range", "latitudes beyond +-66 deg 33' are not refused with ValueError")
+        # written another way (abs(latitude) > limit, a helper ...): the refusal is a decision over comparisons of the latitude with constants -
+        # executed on every class of latitude against the limit
+        from ..rules import eval_exact, NotEvaluable
+
+        def prims(t_, env_):
+            if t_[0] == "call" and t_[1] == "red" and len(t_) == 3:
+                v_ = eval_exact(t_[2], env_, prims)
+                return v_ if abs(v_) < 360 else (abs(v_) % 360) * (1 if v_ >= 0 else -1)
+            if t_[0] == "call" and t_[1] == "isinstance":
+                return True                      # well-typed arguments
+            return None
+        verdict = {}
+        try:
+            for lv in (Fraction(-90), -lim - Fraction(1, 100), -lim, -lim + Fraction(1, 100), Fraction(0), lim - Fraction(1, 100), lim, lim + Fraction(1, 100), Fraction(90)):
+                env_ = {T.sym("LAT"): lv, "$memo": {}}
+                refused = False
+                for o in outs:
+                    if o.kind == "raise" and o.value == ("str", "ValueError") and eval_exact(o.cond, dict(env_), prims) is True:
+                        refused = True
+                verdict[lv] = refused
+        except (NotEvaluable, TypeError, ValueError, KeyError) as e:
+            verdict = None
+            rep.inconcl("R-RANGE-REFUSE", site, "latitude refusal neither in the known form nor executable: %s" % e)
+        if verdict is not None:
+            wrong = [lv for lv, r_ in verdict.items() if r_ != (abs(lv) > lim)]
+            if wrong:
+                rep.violation("R-RANGE-REFUSE", site, "latitude-range", "latitude %s deg is %s; the routine is valid for |latitude| <= 66 deg 33' and must refuse the rest with ValueError"
+                              % (float(wrong[0]), "refused" if verdict[wrong[0]] else "accepted"))
+            else:
+                rep.ok("R-RANGE-REFUSE", site, "ValueError exactly for |latitude| > 66d33' (decision executed on every class of latitude)")
     t = symx.return_term(outs)
     ls = find_calls(t, "Epoch.Epoch.leap_seconds") if t is not None else []
     gd = [x for x in T.walk(t) if x[0] == "call" and x[1] == "Epoch.Epoch.get_date"] if t is not None else []
